@@ -3,7 +3,10 @@
    part of net/streampool they use (per-stream tags, Broadcast de-duplication, removeStream).
    Definitions only.  Granularity: one event = one handler run to completion (the lock regions of the
    Go code are not interleaved); the one race the code defends against — a stream removed from the pool
-   while its read loop still delivers a Subscribe — is the explicit event [EBreak] followed by [ESub].
+   while its read loop still delivers a Subscribe — is the explicit event [EBreak] followed by [ESub];
+   the finer interleaving "a stream leaves the pool WHILE a Subscribe handler sits between recording the
+   interest and pool.AddTagsCtx" is the event [ESubMid], which follows the lock regions of the Go code
+   (pool.mu region of removeStream / remoteMu region of handleSubscribe / remoteMu region of onStreamClose).
 
    Spaces, stream ids and accounts are numbers (the harness owns the tables); patterns/topics are byte
    strings so that Model/Trie.v is reused unchanged.  One stream per peer (peer id = stream id). *)
@@ -83,7 +86,11 @@ Inductive ev :=
 | ERevalidate (space : N)
 | ECloseSpace (space : N)
 | ESetMember (space acct : N) (b : bool)
-| ESnap.
+| ESnap
+| ESubMid (sid victim space : N) (pats : list str).
+      (* Subscribe on [sid] during which stream [victim] (possibly [sid] itself) leaves the pool: if the handler gets as
+         far as pool.AddTagsCtx, [victim] is removed from the pool right before that call — after the interest
+         was recorded — and its close hook runs as soon as remoteMu allows; otherwise right after the handler *)
 
 Inductive out :=
 | ONone
@@ -262,6 +269,46 @@ Definition pool_remove (s : svc) (sid : N) : svc :=
     on_stream_close (mkSvc (sv_remote s) (sv_streams s) (ndel sid (sv_pool s)) (sv_conns s) (sv_members s) (sv_rate s)) sid
   else s.
 
+(* the pool.mu region of streampool.removeStream alone: the stream is gone from the pool, its close hook
+   (which needs remoteMu) has not run yet *)
+Definition drop_pool (s : svc) (sid : N) : svc :=
+  mkSvc (sv_remote s) (sv_streams s) (ndel sid (sv_pool s)) (sv_conns s) (sv_members s) (sv_rate s).
+
+(* does this run of handleSubscribe get as far as pool.AddTagsCtx (all checks pass and the accept loop
+   accepted at least one pattern)? *)
+Definition sub_accepted (c : cfg) (s : svc) (sid space : N) (pats : list str) : list str :=
+  match nassoc sid (sv_conns s) with
+  | None => []
+  | Some acct =>
+      if negb (memN space (resp c)) then []
+      else if negb (forallb validate_pattern pats) then []
+      else if negb (is_member s space acct) then []
+      else
+        let tr := match nassoc space (sv_remote s) with Some t => t | None => trie_empty end in
+        let st := match nassoc sid (sv_streams s) with Some x => x | None => mkSS acct [] 0 end in
+        let sp := match nassoc space (ss_by st) with Some l => l | None => [] end in
+        let '(_, _, _, accepted, _) := sub_loop c pats sp (ss_total st) tr [] in
+        accepted
+  end.
+Definition sub_reaches_tagging (c : cfg) (s : svc) (sid space : N) (pats : list str) : bool :=
+  negb (is_nil (sub_accepted c s sid space pats)).
+
+(* handleSubscribe on [sid] racing with the removal of [victim] from the pool.  remoteMu is held from the
+   recording of the interest to the end of the roll-back, so the close hook of [victim] (onStreamClose, which
+   takes remoteMu) can only run after the handler: the lock regions are, in this order,
+     pool.mu  (removeStream: victim leaves the pool)
+     remoteMu (handleSubscribe: record, AddTagsCtx — fails if victim = sid — , roll back)
+     remoteMu (onStreamClose victim).
+   A run that makes no pool call (nothing accepted) is followed by the removal. *)
+Definition handle_sub_mid_gen (repaired : bool) (c : cfg) (s : svc) (sid victim space : N) (pats : list str) : svc * out :=
+  if sub_reaches_tagging c s sid space pats then
+    let '(s2, o) := handle_sub_gen repaired c (drop_pool s victim) sid space pats in
+    (on_stream_close s2 victim, o)
+  else
+    let '(s2, o) := handle_sub_gen repaired c s sid space pats in
+    (pool_remove s2 victim, o).
+Definition handle_sub_mid := handle_sub_mid_gen true.
+
 Definition drop_conn (s : svc) (sid : N) : svc :=
   mkSvc (sv_remote s) (sv_streams s) (sv_pool s) (ndel sid (sv_conns s)) (sv_members s) (sv_rate s).
 
@@ -316,6 +363,7 @@ Definition svc_step_gen (repaired : bool) (c : cfg) (s : svc) (e : ev) : svc * o
   | ECloseSpace space => (evict_streams s space (fun _ => true) false, ONone)
   | ESetMember space acct b => (set_member s space acct b, ONone)
   | ESnap => (s, snapshot s)
+  | ESubMid sid victim space pats => handle_sub_mid_gen repaired c s sid victim space pats
   end.
 
 Definition svc_step := svc_step_gen true.
@@ -422,15 +470,11 @@ Definition spec_snapshot (p : pstate)
 
 Definition p_set (p : pstate) reg accts pooled mem passed := mkP reg accts pooled mem passed.
 
-Definition spec_step (c : cfg) (p : pstate) (e : ev) (o : out) : bool * pstate :=
+(* a Subscribe frame on [sid] and the reply [o] observed for it *)
+Definition spec_sub (c : cfg) (p : pstate) (sid space : N) (pats : list str) (o : out) : bool * pstate :=
   let same := (true, p) in
   let bad := (false, p) in
   let is_none := match o with ONone => true | _ => false end in
-  match e with
-  | EOpen sid acct =>
-      (is_none, mkP (p_reg p) (nset sid acct (p_accts p)) (sid :: filter (fun x => negb (N.eqb x sid)) (p_pooled p))
-                    (p_mem p) (p_passed p))
-  | ESub sid space pats =>
       match nassoc sid (p_accts p) with
       | None => (is_none, p)
       | Some acct =>
@@ -449,7 +493,22 @@ Definition spec_step (c : cfg) (p : pstate) (e : ev) (o : out) : bool * pstate :
               else (negb eligible && pooled, p)
           | _ => bad
           end
-      end
+      end.
+
+(* the stream has left the pool and its close hook has run: no registered interest, not pooled *)
+Definition after_break (p : pstate) (sid : N) : pstate :=
+  mkP (filter (fun t => negb (N.eqb (tr_sid t) sid)) (p_reg p)) (p_accts p)
+      (filter (fun x => negb (N.eqb x sid)) (p_pooled p)) (p_mem p) (p_passed p).
+
+Definition spec_step (c : cfg) (p : pstate) (e : ev) (o : out) : bool * pstate :=
+  let same := (true, p) in
+  let bad := (false, p) in
+  let is_none := match o with ONone => true | _ => false end in
+  match e with
+  | EOpen sid acct =>
+      (is_none, mkP (p_reg p) (nset sid acct (p_accts p)) (sid :: filter (fun x => negb (N.eqb x sid)) (p_pooled p))
+                    (p_mem p) (p_passed p))
+  | ESub sid space pats => spec_sub c p sid space pats o
   | EUnsub sid space pats =>
       match nassoc sid (p_accts p) with
       | None => (is_none, p)
@@ -518,6 +577,10 @@ Definition spec_step (c : cfg) (p : pstate) (e : ev) (o : out) : bool * pstate :
       | OSnap remote streams pool => (spec_snapshot p remote streams pool, p)
       | _ => bad
       end
+  | ESubMid sid victim space pats =>
+      (* whatever is replied must be a legal reply to that Subscribe; whatever the interleaving, afterwards
+         [victim] holds no interest and is not pooled, and nobody else's registrations are disturbed *)
+      let '(ok, p1) := spec_sub c p sid space pats o in (ok, after_break p1 victim)
   end.
 
 Fixpoint spec_svc_from (c : cfg) (p : pstate) (evs : list ev) (obs : list out) : bool :=
